@@ -220,11 +220,7 @@ func (ex *Exec) allocRef(st *State, reach T, prefix string) T {
 	ac := ex.allocComp()
 	a := ex.get(st, ac)
 	ex.assume(reach, and(not(eq(r, tNil)), not(sel(a, r))))
-	if ex.declared["sub$owner"] {
-		ex.assume(tTrue, eq(app("Int", "sub$tag", r), intLit(0)))
-	} else {
-		ex.pendingTag0 = append(ex.pendingTag0, r.s)
-	}
+	ex.pendingTag0 = append(ex.pendingTag0, r.s)
 	ex.set(st, ac, store(a, r, tTrue))
 	return r
 }
@@ -370,7 +366,11 @@ func (ex *Exec) globalRef(g *ssa.Global) T {
 	name := "g$" + sanitize(g.Pkg.Pkg.Name()+"."+g.Name())
 	if !ex.declared[name] {
 		ex.declared[name] = true
-		ex.decls = append(ex.decls, fmt.Sprintf("(declare-const %s Ref)", name), fmt.Sprintf("(assert (not (= %s nil)))", name))
+		ex.allocComp()
+		ex.decls = append(ex.decls, fmt.Sprintf("(declare-const %s Ref)", name), fmt.Sprintf("(assert (not (= %s nil)))", name),
+			fmt.Sprintf("(assert (select Alloc$init %s))", name))
+		// a package-level variable is an object of its own, not part of another object
+		ex.pendingTag0 = append(ex.pendingTag0, name)
 	}
 	return T{name, "Ref"}
 }
